@@ -1415,7 +1415,25 @@ def rand_string(rng, desc, maxlen=12):
     return _EXPO.sub(lambda m: m.group(1)[:3], _rand_string(rng, desc, maxlen))
 
 
+# strings around the decision points of the total tokenisers (Model/Parse.lean): where the coefficient
+# pattern's parenthesised alternative is abandoned, where an exponent is or is not taken, where a sign is
+# or is not consumed at offset 0, empty matches, `*` and blanks without a following variable
+DECISION_PIECES = ["(a", "(a + ", "(a+1", "( a )", "(a)", "()", "(1)", "(-1)", "( 2a + 1 )", "(a + 1)(a)", "(a^2 + 1", "(a ^2)",
+                   "a^", "a^^2", "a^2", "a2", "2a^2", "2a2", "a a", "2 a", "1 1", "01", "1a", "a1", "a^1X", "aX", "Xa",
+                   "X^", "X^ 2", "X ^2", "X^^2", "X*", "*X", "X*Y", "X**Y", "X^2Y^", "YX", "X Y 2", "X^2^3", "x", "y2",
+                   "+", "-", "+ +", "- -", "-X", " -X", "+X", "- 1", "+1", "\t", " ", "  ", "*", "^", "3*", "3 *", "3* X", "3 ^2",
+                   "0", "00", "0X", "X0", "X^0", "X^00", "X^01", "1X^1", "(a)X", "(a + 1) X", "(a + 1)*X", "2(a)", "a + 1X"]
+
+
+def _decision_string(rng):
+    n = rng.choice([1, 1, 2, 2, 3])
+    return rng.choice(["", "", "", " ", "+", "-"]) + rng.choice(["", " ", " + ", "+", " - ", "-"]).join(
+        rng.choice(DECISION_PIECES).replace("\\t", "\t") for _ in range(n))
+
+
 def _rand_string(rng, desc, maxlen=12):
+    if rng.random() < 0.15:
+        return _decision_string(rng)[:40]
     k = rng.random()
     if k < 0.4:
         return "".join(rng.choice(GRAMMAR_ALPHABET) for _ in range(rng.randrange(0, maxlen)))
